@@ -213,3 +213,7 @@ package table
 //@ after_call append#0: assert dHyp(ref(reader), DP) ==> (result[len(result)-1].Key == prevKey[0:DL] + DKey[DL:len(DKey)] && string(result[len(result)-1].Value) == DVal && result[len(result)-1].Tombstone == DTomb && result[len(result)-1].Version == DVer)
 //@ loop 0:
 //@   invariant r != nil && r.err == nil && reader != nil && tag(r.r) == tagof(*bytes.Reader) && unbox(*bytes.Reader, r.r) == reader && buf != nil && BufOwned[ref(buf)]
+//
+// Index.Decode is not under contract: it passes interior pointers (&i.DataBlock.Offset) through an
+// interface to binary.Read, which is outside the subset govc models (reported as out of subset when a
+// contract is attached). Its content spec would mirror Data.Decode's.
